@@ -38,7 +38,7 @@ def build(j, betas=None, cache=None):
             r = Numeric(from_dyadic(h[1], h[2]))
         elif t == 'Beta':
             b = betas.get(h[1], {})
-            r = Beta(h[1], b.get('value', 0.0), b.get('lb'), b.get('ub'), 1 if h[2] else 0)
+            r = Beta(h[1], b.get('init', b.get('value', 0.0)), b.get('lb'), b.get('ub'), 1 if h[2] else 0)
         elif t == 'Var':
             r = Variable(h[1])
         elif t == 'Draws':
